@@ -180,13 +180,12 @@ type dqEl struct{ id, val int }
 
 type dqModel struct {
 	insts [][]dqEl
-	alloc []bool // slot array allocated (New, or pushed to at least once): Reset on a zero value panics
 	cur   int
 	next  int
 }
 
 func (m *dqModel) clone() *dqModel {
-	c := &dqModel{cur: m.cur, next: m.next, alloc: append([]bool(nil), m.alloc...)}
+	c := &dqModel{cur: m.cur, next: m.next}
 	for _, s := range m.insts {
 		c.insts = append(c.insts, append([]dqEl(nil), s...))
 	}
@@ -218,11 +217,9 @@ func (m *dqModel) apply(op string) {
 	case "pb":
 		s = append(s, dqEl{m.next, n(1)})
 		m.next++
-		m.alloc[m.cur] = true
 	case "pf":
 		s = dqInsert(s, 0, dqEl{m.next, n(1)})
 		m.next++
-		m.alloc[m.cur] = true
 	case "popf":
 		if len(s) > 0 {
 			s = s[1:]
@@ -257,7 +254,6 @@ func (m *dqModel) apply(op string) {
 		s = nil
 	case "clone":
 		m.insts = append(m.insts, append([]dqEl(nil), s...))
-		m.alloc = append(m.alloc, m.alloc[m.cur])
 	case "use":
 		m.cur = n(1)
 		return
@@ -284,9 +280,7 @@ func dqAlphabet(m *dqModel, depth int, last bool) []string {
 	if len(s) > 0 {
 		ops = append(ops, fmt.Sprintf("up:%d:%d", s[len(s)/2].id, v))
 	}
-	if m.alloc[m.cur] {
-		ops = append(ops, "reset")
-	}
+	ops = append(ops, "reset") // also as the first operation on a zero value and on clones of one
 	if len(m.insts) < 2 {
 		ops = append(ops, "clone")
 	}
@@ -301,12 +295,10 @@ func dqAlphabet(m *dqModel, depth int, last bool) []string {
 	return ops
 }
 
-func dqNewModel(init string) *dqModel {
-	return &dqModel{insts: [][]dqEl{nil}, alloc: []bool{init != "zero"}}
-}
+func dqNewModel() *dqModel { return &dqModel{insts: [][]dqEl{nil}} }
 
 // dqEnumerate walks every operation sequence of exactly `depth` operations and calls leaf for each.
-func dqEnumerate(init string, depth int, leaf func(ops []string)) {
+func dqEnumerate(depth int, leaf func(ops []string)) {
 	var rec func(m *dqModel, prefix []string)
 	rec = func(m *dqModel, prefix []string) {
 		if len(prefix) == depth {
@@ -319,7 +311,7 @@ func dqEnumerate(init string, depth int, leaf func(ops []string)) {
 			rec(c, append(prefix[:len(prefix):len(prefix)], op))
 		}
 	}
-	rec(dqNewModel(init), nil)
+	rec(dqNewModel(), nil)
 }
 
 func genDeque(g *Gen) {
@@ -329,11 +321,11 @@ func genDeque(g *Gen) {
 	depth := g.pick(5, 6)
 	for _, init := range []string{"zero", "new:0"} {
 		budget := g.pick(150000, 600000)
-		if init != "zero" { // the allocated start differs only in `reset` being allowed from the start
+		if init != "zero" { // same sequences as from the zero value; only the slot array starts allocated
 			budget = g.pick(50000, 600000)
 		}
 		total := 0
-		dqEnumerate(init, depth, func([]string) { total++ })
+		dqEnumerate(depth, func([]string) { total++ })
 		stride := (total + budget - 1) / budget
 		levels := []int{depth}
 		if stride > 1 {
@@ -345,7 +337,7 @@ func genDeque(g *Gen) {
 				st = stride
 			}
 			off, i := g.R.Intn(st), 0
-			dqEnumerate(init, dd, func(ops []string) {
+			dqEnumerate(dd, func(ops []string) {
 				if i%st == off {
 					g.Emit("deque %s %s", init, strings.Join(ops, ","))
 					g.Count(fmt.Sprintf("exhaustive-%s-depth%d", init, dd))
@@ -362,7 +354,7 @@ func genDeque(g *Gen) {
 		if g.R.Intn(2) == 0 {
 			init = fmt.Sprintf("new:%d", g.R.Intn(9))
 		}
-		g.Emit("deque %s %s", init, strings.Join(dqRandomOps(g, init, 1+g.R.Intn(maxOps)), ","))
+		g.Emit("deque %s %s", init, strings.Join(dqRandomOps(g, 1+g.R.Intn(maxOps)), ","))
 		g.Count("random")
 	}
 }
@@ -370,8 +362,8 @@ func genDeque(g *Gen) {
 // dqRandomOps produces one random sequence. It runs in phases (grow / shrink / churn) whose mix of
 // operations drifts the length up, down to empty, or keeps it level, so that every case passes through
 // growth of the slot array, recycling of removed slots and the automatic reset.
-func dqRandomOps(g *Gen, init string, count int) []string {
-	m := dqNewModel(init)
+func dqRandomOps(g *Gen, count int) []string {
+	m := dqNewModel()
 	var ops []string
 	phase, left := 0, 0
 	limit := 8 + g.R.Intn(90) // soft bound on the length: keeps the model's list-based arena cheap
@@ -429,7 +421,7 @@ func dqRandomOps(g *Gen, init string, count int) []string {
 				op = "clone"
 			case k == 10 && len(m.insts) > 1:
 				op = fmt.Sprintf("use:%d", g.R.Intn(len(m.insts)))
-			case k == 11 && m.alloc[m.cur] && g.R.Intn(4) == 0:
+			case k == 11 && g.R.Intn(4) == 0:
 				op = "reset"
 			default:
 				op = fmt.Sprintf("rg:%d", g.R.Intn(4))
